@@ -49,6 +49,37 @@ def tf_dec(key,tweak,block):
         if d%4==0:
             sk=ks(d//4); v=[(a-b)&M64 for a,b in zip(v,sk)]
     return struct.pack('<%dQ'%Nw,*v)
+def tf_block_reaching(key,tweak,s,words):
+    """the plaintext block for which the state right after subkey injection number s (before round 4s) is `words`"""
+    Nw,Nr,ks=_sched(key,tweak)
+    assert len(words)==Nw and 0<=s<=Nr//4
+    v=[(a-b)&M64 for a,b in zip(words,ks(s))]
+    inv=[0]*Nw
+    for i in range(Nw): inv[PI[Nw][i]]=i
+    for d in reversed(range(4*s)):
+        f=[0]*Nw
+        for i in range(Nw): f[PI[Nw][i]]=v[i]
+        e=[]
+        for j in range(Nw//2):
+            y0,y1=f[2*j],f[2*j+1]
+            x1=ror(y1^y0,ROT[Nw][d%8][j]); e+=[(y0-x1)&M64,x1]
+        v=e
+        if d%4==0:
+            v=[(a-b)&M64 for a,b in zip(v,ks(d//4))]
+    return struct.pack('<%dQ'%Nw,*v)
+def tf_state_after_injection(key,tweak,block,s):
+    """forward: the state right after subkey injection number s (used to verify tf_block_reaching)"""
+    Nw,Nr,ks=_sched(key,tweak)
+    v=list(struct.unpack('<%dQ'%Nw,block))
+    for d in range(4*s+1):
+        if d%4==0:
+            v=[(a+b)&M64 for a,b in zip(v,ks(d//4))]
+            if d==4*s: return v
+        f=[]
+        for j in range(Nw//2):
+            y0=(v[2*j]+v[2*j+1])&M64
+            f+=[y0, rol(v[2*j+1],ROT[Nw][d%8][j])^y0]
+        v=[f[PI[Nw][i]] for i in range(Nw)]
 TYPES={'key':0,'cfg':4,'prs':8,'PK':12,'kdf':16,'non':20,'msg':48,'out':63}
 def ubi(G,M,typ,bitlen=None,level=0,pos0=0):
     Nb=len(G)
